@@ -1,6 +1,7 @@
 import Tmcg.Base
 import Tmcg.Model.Powm
 import Tmcg.Model.Vtmf
+import Tmcg.Model.Sigma
 /-
   Model of the signature VERIFIERS of the threshold signature schemes (property C16, last
   sentence): `CanettiGennaroJareckiKrawczykRabinDSS::Verify`
@@ -28,5 +29,18 @@ def dssVerify (G : Group) (y m r s : Int) : Except Err Bool := do
     let r2 ← mpzMod r1 G.q
     -- 3. r = r'
     return r == r2
+
+/-- `GennaroJareckiKrawczykRabinNTS::Verify(m, c, s)`: Schnorr verification `c = H(m, g^s y^{-c})`
+    with the range check `0 ≤ s < q` (added by the repair of finding F8) -/
+def ntsVerify (H : Sigma.Hash) (G : Group) (y m c s : Int) : Except Err Bool := do
+  if s < 0 ∨ s ≥ G.q then return false
+  let T ← precompute G.g G.p (bitlen G.q)
+  let r ← fpowm T G.g s G.p
+  let foo ← mpzPowm y c G.p
+  match invm foo G.p with
+  | none => return false
+  | some bar =>
+    let r1 ← mpzMod (r * bar) G.p
+    return c == H (Sigma.shashInput [m, r1])
 
 end Tmcg.Tsig
